@@ -854,7 +854,7 @@ func validatePushConfig(cfg *pubsubpb.PushConfig) error {
 			return status.Errorf(codes.InvalidArgument, "Unsupported 'x-goog-version': %s", v)
 		}
 	}
-	if cfg.AuthenticationMethod != nil {
+	if cfg.GetAuthenticationMethod() != nil {
 		return status.Errorf(codes.Unimplemented, "PushConfig.AuthenticationMethod not supported")
 	}
 	return nil
